@@ -851,7 +851,7 @@ func (r *runner) misc() {
 	if c.Shard != 0 {
 		return
 	}
-	depth := c.N(300, 3000)
+	depth := c.Pick(300, 3000) // a bound, not a count: the formulas stay below 64 KiB
 	one := []Bind{{Keys: map[string]string{"x": "3"}, Idx: map[string]string{"0": "2"}}}
 	deep := strings.Repeat("(", depth) + "x+1" + strings.Repeat(")*2", depth)
 	long := "x" + strings.Repeat("+[0]*2-1", depth)
